@@ -8,10 +8,13 @@ Lean model; the two tables are compared with each other (invariance); every part
 compared before/after the call; column dtypes are recorded as returned.
 
 Finding kinds: `spec` = a clause of the statement fails on the real output (checker / own evaluation / two real runs /
-caller's list edited / numeric field returned as text / exception raised inside cryocat); `corr` = difference to the
-model or to the documented table layout, or an exception without a frame inside cryocat/ (harness-or-library-raised).
-Open known finding C18-K1: disjoint tomogram sets raise ValueError instead of giving an empty table (clause
-`disjoint-empty-result`, the only clause classify() maps to it).
+caller's list edited / numeric field returned as text in a NON-EMPTY table / exception raised inside cryocat); `corr` =
+difference to the model or to the documented table layout, or an exception without a frame inside cryocat/
+(harness-or-library-raised). Exceptions are classified by their TYPE's origin (frame inside cryocat/ or not) and by the
+precondition of the case (common tomogram or not), never by message text.
+No open known finding: C18-K1 (lists sharing no tomogram raised ValueError instead of giving an empty table) is fixed by
+C18-fix-1; on a tree without the fix the clause `disjoint-empty-result` is a spec finding with a replay; on the repaired tree
+the real empty table is compared with the model's (Props/C18 `k1_model_returns_empty`).
 """
 import ast, math, json, hashlib
 import numpy as np
@@ -28,7 +31,11 @@ RULE = ("pairs of particle lists (1..200 particles each, 1..4 tomograms with arb
         "subtomogram numbers unique in the list or restarting in every tomogram (35 %: rows are identified by (tomogram, position in the tomogram's subset), never by the "
         "number alone), positions and non-zero shifts on the 1/64 grid (wide, dense-cluster and jittered-lattice layouts), arbitrary real Euler angles incl. gimbal, next-to-gimbal "
         "and out-of-range values, in 20 % of the cases drawn from a small pool so that query and neighbour carry bit-identical (or 1e-9..1e-4 degrees apart) orientations, "
-        "k in 1..5 (also k > number of candidates), dyadic pixel size, random proper rotation Q (also identity / half turns) and real translation t applied to all or to SOME "
+        "k in 1..5 (also k > number of candidates; passed as int or numpy.int64), pixel size dyadic or a 2-3 decimal value such as 1.35 / 13.48 (passed as float, numpy.float64, or int when integral), "
+        "angles also with 1-3 decimals as in a text file; column types float64 (60 %), identifier columns int64 (20 %), EVERY column int64 with integer positions / shifts / angles (20 %: "
+        "what reading an all-integer STAR file gives); row labels of the caller's DataFrame default (60 %), ascending with gaps, duplicated, not ascending, or one label for every row "
+        "(Motl(df) keeps them); float32 columns are not generated (no cryoCAT reader produces them: EM files are widened to float64 on load); "
+        "random proper rotation Q (also identity / half turns) and real translation t applied to all or to SOME "
         "tomograms; cases with a tie among the k+1 smallest squared distances of any query are regenerated. "
         "Call form: get_nn_stats(Motl, Motl, pixel_size=, feature_id='tomo_id', nn_number=, rotation_type='angular_distance'); each of feature_id / rotation_type is OMITTED in "
         "30 % of the cases, pixel_size in 30 % of those with pixel size 1, nn_number in 30 % of those with k = 1, so that the library's defaults are exercised. "
@@ -39,7 +46,7 @@ RULE = ("pairs of particle lists (1..200 particles each, 1..4 tomograms with arb
         "non-trivial = some common tomogram has >= 2 queries and more candidates than k, a non-zero shift occurs and Q is not the identity; distinct = distinct content hash of the case")
 ASSUMPTIONS = [
     "sklearn.neighbors.KDTree.query(k) returns the k smallest Euclidean distances in ascending order (= brute force); checked on every case by the Lean verified checker checkKnn on the implementation's own neighbour lists, and probed",
-    "binary64 arithmetic on the 1/64 grid is exact for complete positions, pixel scaling and squared distances, so numpy's and the Float driver's neighbour decisions equal the exact-arithmetic ones of the theorems; after the harness' rigid motion the squared distances carry a rounding error < 1e-9 against a gap >= 2^-12 between distinct values, so the decisions stay the same",
+    "binary64 arithmetic on the 1/64 grid is exact for complete positions and squared distances (the tree works on UNSCALED coordinates, so a decimal pixel size never enters a neighbour decision; the pixel size multiplies afterwards, the same single rounding in numpy and in the Float driver), so numpy's and the Float driver's neighbour decisions equal the exact-arithmetic ones of the theorems; after the harness' rigid motion the squared distances carry a rounding error < 1e-9 against a gap >= 2^-12 between distinct values, so the decisions stay the same",
     "scipy Rotation.from_euler('zxz', degrees=True) is the matrix Rz(psi)Rx(theta)Rz(phi); as_euler returns a triple of the same rotation, except that inside its gimbal-lock zone (|sin theta| <= 1e-7) it zeroes the third angle and the triple describes a rotation up to 2 sin(theta) (< 1e-5 degrees) away: Euler triples REPORTED by the library are compared with tolerance 1e-9 + 3 sin(theta) there (probed against this module's own matrices)",
     "the quaternion formula 2*arccos(min(|q1.q2|,1)) of geom.angular_distance equals the rotation angle arccos((trace-1)/2) = atan2(|skew|/2, (trace-1)/2) of the relative rotation: PROVED over the reals (Props/C18 angular_distance_is_rotation_angle, nnStats_angular_real, through C06 angDist_is_rotation_angle / trace_rel); in binary64 the two forms are compared with a conditioning-aware tolerance",
     "a table whose subtomogram numbers repeat across tomograms carries no tomogram column: a row is attributed to the (query, neighbour) pair with those two numbers whose distance and offset it reports; rows that say exactly the same about several pairs are interchangeable and are spread over the pairs (documented row layout as tie-break only)",
@@ -53,15 +60,17 @@ STATS_COLUMNS = ["distance", "coord_x", "coord_y", "coord_z", "coord_rx", "coord
 
 
 # ------------------------------------------------------------------ translator
-# Names of the local variables of the anchored functions at the documented (pinned) source, in order of first binding. The
-# translator renames the locals of the CURRENT source, by binding order, to these names before any expression is extracted, so
-# that a rename of a local variable leaves every anchor unchanged while an added / removed / reordered binding shifts them.
+# Names of the local variables of the anchored functions at the documented (pinned) source, in order of their first binding
+# OCCURRENCE in the source text. The translator renames the locals of the CURRENT source, by binding order, to these names before
+# any expression is extracted, so that a rename of a local variable leaves every anchor unchanged while an added / removed /
+# reordered binding shifts them. A local that is bound but never read (a discard such as `_`, whatever it is called) takes no
+# slot: every one of them is written `_` (H2).
 DOC_LOCALS = {
     "get_feature_nn_indices": ["coord_a", "coord_nn", "nn_count", "kdt_nn", "nn_dist", "nn_idx", "ordered_idx"],
     "get_nn_distances": ["features_a", "features_nn", "features", "centered_coord", "nn_dist", "angular_distances", "rotated_coord", "subtomo_idx",
                          "subtomo_idx_nn", "f", "fm_a", "fm_nn", "idx", "nn_idx", "dist", "nn_count", "coord_nn", "coord_a", "angles_a", "angles_nn",
                          "rotations", "angles", "rot", "subtomos_nn", "subtomos_a", "i", "c_coord", "angles_nn_sel", "rotations_nn"],
-    "get_nn_rotations": ["features_a", "features_nn", "features", "nn_rotations", "f", "fm_a", "fm_nn", "idx", "idx_nn", "_", "nn_count", "angles_nn",
+    "get_nn_rotations": ["features_a", "features_nn", "features", "nn_rotations", "f", "fm_a", "fm_nn", "idx", "idx_nn", "nn_count", "angles_nn",
                          "angles_ref_to_zero", "rot_to_zero", "i", "rot_nn", "points_on_sphere", "angles"],
     "get_nn_stats": ["centered_coord", "rotated_coord", "nn_dist", "ang_dst", "subtomo_idx", "subtomo_idx_nn", "coord_rot", "angles", "nn_stats"],
     "angular_distance": ["rot1", "rot2", "angles1", "angles2", "sym_div", "q1", "q2", "angle", "dist"],
@@ -69,26 +78,129 @@ DOC_LOCALS = {
     "visualize_rotations": ["starting_point", "new_points", "fig", "ax"],
     "get_coordinates": ["coord"],
     "get_angles": ["angles"],
+    "get_feature": ["missing_columns"],
+    "get_motl_subset": ["new_df", "i", "df_i"],
 }
 MISSING = "<anchor missing>"  # value written to Gen/C18.lean for an anchor that cannot be extracted (no Gen value feeds the model)
+MSG = "<msg>"                 # every exception / log / print message text is written like this (H1)
+_LOG_CALLS = {"print", "warn", "warning", "info", "debug", "error", "critical", "exception", "log"}
+
+
+def _emptiness(node):
+    """('empty' | 'nonempty', X) when `node` tests whether len(X) is zero, in any of the usual spellings; else None"""
+    def is_len(n):
+        return isinstance(n, ast.Call) and isinstance(n.func, ast.Name) and n.func.id == "len" and len(n.args) == 1 and not n.keywords
+
+    def num(n):
+        return n.value if isinstance(n, ast.Constant) and type(n.value) is int else None
+
+    if isinstance(node, ast.UnaryOp) and isinstance(node.op, ast.Not):
+        if is_len(node.operand):
+            return ("empty", node.operand.args[0])
+        inner = _emptiness(node.operand)
+        if inner:
+            return ("nonempty" if inner[0] == "empty" else "empty", inner[1])
+        return None
+    if isinstance(node, ast.Compare) and len(node.ops) == 1:
+        l, op, r = node.left, node.ops[0], node.comparators[0]
+        flip = {ast.Lt: ast.Gt, ast.Gt: ast.Lt, ast.LtE: ast.GtE, ast.GtE: ast.LtE, ast.Eq: ast.Eq, ast.NotEq: ast.NotEq}
+        if is_len(r) and num(l) is not None and type(op) in flip:
+            l, op, r = r, flip[type(op)](), l
+        if is_len(l) and num(r) is not None:
+            c, t = num(r), type(op)
+            if (t, c) in ((ast.Eq, 0), (ast.LtE, 0), (ast.Lt, 1)):
+                return ("empty", l.args[0])
+            if (t, c) in ((ast.NotEq, 0), (ast.Gt, 0), (ast.GtE, 1)):
+                return ("nonempty", l.args[0])
+    return None
+
+
+class _Canon(ast.NodeTransformer):
+    """edits that cannot change behaviour are written one way (H1): no annotations, message texts as MSG, `len(X) == 0` /
+    `len(X) > 0` for every spelling of the emptiness test"""
+
+    def _strip_msgs(self, node):
+        class M(ast.NodeTransformer):
+            def visit_JoinedStr(self, n):
+                return ast.copy_location(ast.Constant(MSG), n)
+
+            def visit_Constant(self, n):
+                return ast.copy_location(ast.Constant(MSG), n) if isinstance(n.value, str) else n
+        return M().visit(node)
+
+    def visit_arg(self, n):
+        n.annotation = None
+        return n
+
+    def visit_FunctionDef(self, n):
+        n.returns = None
+        self.generic_visit(n)
+        return n
+
+    def visit_AnnAssign(self, n):
+        self.generic_visit(n)
+        if n.value is None:
+            return ast.copy_location(ast.Pass(), n)  # a bare declaration `x: T`
+        return ast.copy_location(ast.Assign(targets=[n.target], value=n.value), n)
+
+    def visit_Raise(self, n):
+        self.generic_visit(n)
+        if n.exc is not None:
+            n.exc = self._strip_msgs(n.exc)
+        return n
+
+    def visit_Expr(self, n):
+        self.generic_visit(n)
+        c = n.value
+        if isinstance(c, ast.Call):
+            name = c.func.attr if isinstance(c.func, ast.Attribute) else (c.func.id if isinstance(c.func, ast.Name) else "")
+            if name in _LOG_CALLS:
+                c.args = [self._strip_msgs(a) for a in c.args]
+        return n
+
+    def _emp(self, n):
+        e = _emptiness(n)
+        if e is None:
+            return None
+        kind, x = e
+        x = self.visit(x)
+        call = ast.Call(func=ast.Name("len", ast.Load()), args=[x], keywords=[])
+        return ast.copy_location(ast.Compare(left=call, ops=[ast.Eq() if kind == "empty" else ast.Gt()], comparators=[ast.Constant(0)]), n)
+
+    def visit_UnaryOp(self, n):
+        return self._emp(n) or self.generic_visit(n)
+
+    def visit_Compare(self, n):
+        return self._emp(n) or self.generic_visit(n)
 
 
 def _alpha(fn):
-    """copy of the function with its local variables renamed, by order of first binding, to the documented names"""
+    """copy of the function, canonicalised (_Canon) and with its local variables renamed, by order of their first binding
+    occurrence in the source, to the documented names; `fn._orig` maps every canonical name back to the identifier in the source"""
     import copy
     fn = copy.deepcopy(fn)
+    fn = _Canon().visit(fn)
+    ast.fix_missing_locations(fn)
     a = fn.args
     params = {x.arg for x in a.posonlyargs + a.args + a.kwonlyargs} | ({a.vararg.arg} if a.vararg else set()) | ({a.kwarg.arg} if a.kwarg else set())
+    stores, loads = [], set()
+    for n in ast.walk(fn):
+        if isinstance(n, ast.Name):
+            if isinstance(n.ctx, ast.Store):
+                stores.append((n.lineno, n.col_offset, n.id))
+            else:
+                loads.add(n.id)
+        elif isinstance(n, ast.AugAssign) and isinstance(n.target, ast.Name):
+            loads.add(n.target.id)  # `x += 1` reads x
     order = []
-
-    class Collect(ast.NodeVisitor):
-        def visit_Name(self, n):
-            if isinstance(n.ctx, ast.Store) and n.id not in params and n.id not in order:
-                order.append(n.id)
-
-    Collect().visit(fn)
+    for _, _, name in sorted(stores):
+        if name not in params and name not in order:
+            order.append(name)
+    discards = [x for x in order if x not in loads]          # bound, never read: `_` or any other name
+    order = [x for x in order if x in loads]
     doc = DOC_LOCALS.get(fn.name, [])
     ren = {old: (doc[k] if k < len(doc) else f"_local{k}") for k, old in enumerate(order)}
+    ren.update({old: "_" for old in discards})
 
     class Rename(ast.NodeTransformer):
         def visit_Name(self, n):
@@ -97,17 +209,31 @@ def _alpha(fn):
             return n
 
     Rename().visit(fn)
+    fn._orig = {new: old for old, new in ren.items() if new != "_"}
+    fn._locals = order
     return fn
 
 
 def _fn(src, rel, name):
-    return _alpha(src.find(rel, name))
+    f = _alpha(src.find(rel, name))
+    f._rel = rel
+    f._lines = src.text(rel).splitlines()
+    return f
 
 
-def _dump(fn):
-    """normalised dump of a whole function: signature, then one line per statement (nesting depth as leading dots, docstring dropped)"""
+def _here(fn, canon):
+    """how the documented local `canon` is called in the current source (for AnchorMissing texts, H2)"""
+    orig = getattr(fn, "_orig", {})
+    if canon in orig:
+        return f"`{canon}`" + ("" if orig[canon] == canon else f" (called `{orig[canon]}` in the current source)")
+    return f"`{canon}` (documented local number {DOC_LOCALS.get(fn.name, []).index(canon) + 1 if canon in DOC_LOCALS.get(fn.name, []) else '?'}; the current source binds {getattr(fn, '_locals', [])})"
+
+
+def _dump_pairs(fn):
+    """normalised dump of a whole function as (text, line number): signature, then one entry per statement (nesting depth as leading
+    dots, docstring dropped)"""
     E = core.norm_expr
-    out = ["def " + fn.name + "(" + E(fn.args) + ")"]
+    out = [("def " + fn.name + "(" + E(fn.args) + ")", fn.lineno)]
 
     def block(stmts, d):
         for s in stmts:
@@ -115,24 +241,90 @@ def _dump(fn):
             if isinstance(s, ast.Expr) and isinstance(s.value, ast.Constant) and isinstance(s.value.value, str):
                 continue
             if isinstance(s, ast.If):
-                out.append(pre + "if " + E(s.test))
+                out.append((pre + "if " + E(s.test), s.lineno))
                 block(s.body, d + 1)
                 if s.orelse:
-                    out.append(pre + "else")
+                    out.append((pre + "else", s.orelse[0].lineno))
                     block(s.orelse, d + 1)
             elif isinstance(s, (ast.For, ast.While)):
-                out.append(pre + ("for " + E(s.target) + " in " + E(s.iter) if isinstance(s, ast.For) else "while " + E(s.test)))
+                out.append((pre + ("for " + E(s.target) + " in " + E(s.iter) if isinstance(s, ast.For) else "while " + E(s.test)), s.lineno))
                 block(s.body, d + 1)
                 if s.orelse:
-                    out.append(pre + "else")
+                    out.append((pre + "else", s.orelse[0].lineno))
                     block(s.orelse, d + 1)
             elif isinstance(s, (ast.With, ast.Try, ast.FunctionDef, ast.ClassDef, ast.Match) if hasattr(ast, "Match") else (ast.With, ast.Try, ast.FunctionDef, ast.ClassDef)):
-                out.append(pre + type(s).__name__ + ":" + ast.unparse(s).replace(" ", "").replace("\n", ";"))
+                out.append((pre + type(s).__name__ + ":" + ast.unparse(s).replace(" ", "").replace("\n", ";"), s.lineno))
             else:
-                out.append(pre + E(s))
+                out.append((pre + E(s), s.lineno))
 
     block(fn.body, 1)
     return out
+
+
+def _dump(fn):
+    return [t for t, _ in _dump_pairs(fn)]
+
+
+_DOC_CACHE = {}
+
+
+def _documented(name):
+    """the hand-written list literal that Props/C18.lean states for `Gen.C18.<name>` (None when it cannot be read): used ONLY to point
+    at the changed source line in the console output — the obligation itself is the Lean theorem"""
+    import os, re
+    if "text" not in _DOC_CACHE:
+        try:
+            _DOC_CACHE["text"] = open(os.path.join(core.LEAN, "CryoCat", "Props", "C18.lean")).read()
+        except OSError:
+            _DOC_CACHE["text"] = ""
+    m = re.search(r"Gen\.C18\." + re.escape(name) + r"\s*=\s*\[", _DOC_CACHE["text"])
+    if not m:
+        return None
+    out, i, t = [], m.end(), _DOC_CACHE["text"]
+    while i < len(t):
+        if t[i] == "]":
+            return out
+        if t[i] == '"':
+            j, buf = i + 1, []
+            while j < len(t) and t[j] != '"':
+                if t[j] == "\\" and j + 1 < len(t):
+                    buf.append(t[j + 1]); j += 2
+                else:
+                    buf.append(t[j]); j += 1
+            out.append("".join(buf)); i = j + 1
+        elif t[i] in " ,\n\r\t":
+            i += 1
+        else:
+            return None
+    return None
+
+
+def _pointer(src, anchor_name, gen_name, fn_thunk):
+    """Python-side diagnosis of a whole-body anchor: when the dump differs from the list documented in Props/C18.lean, record WHERE
+    (file, line, the statement as it stands, the documented statement) as a failed anchor `…:changed`. The Lean theorem
+    `body_…_documented` fails in exactly the same situations, so this adds a readable message, never a new reason to fail."""
+    try:
+        fn = fn_thunk()
+        pairs = _dump_pairs(fn)
+    except Exception:
+        return
+    doc = _documented(gen_name)
+    cur = [t for t, _ in pairs]
+    if doc is None or doc == cur:
+        return
+    import difflib
+    msgs = []
+    sm = difflib.SequenceMatcher(a=doc, b=cur, autojunk=False)
+    for tag, i1, i2, j1, j2 in sm.get_opcodes():
+        if tag == "equal":
+            continue
+        line = pairs[j1][1] if j1 < len(pairs) else (pairs[-1][1] if pairs else fn.lineno)
+        now = "; ".join(fn._lines[pairs[j][1] - 1].strip() for j in range(j1, min(j2, j1 + 3))) if j2 > j1 else "(nothing)"
+        was = "; ".join(doc[i1:min(i2, i1 + 3)]) if i2 > i1 else "(nothing)"
+        verb = {"replace": "changed", "delete": "removed", "insert": "added"}[tag]
+        msgs.append(f"{fn._rel}:{line}: {verb}: source now `{now}` | documented `{was}`")
+    src.anchors.append(dict(name=anchor_name + ":changed", ok=False, value=None,
+                            detail=f"{fn.name} differs from its documented body (Props/C18.lean, Gen.C18.{gen_name}) at: " + " || ".join(msgs[:4])))
 
 
 def _assign_value(fn, target):
@@ -140,7 +332,7 @@ def _assign_value(fn, target):
     for n in ast.walk(fn):
         if isinstance(n, ast.Assign) and len(n.targets) == 1 and core.norm_expr(n.targets[0]) == target:
             return n.value
-    raise core.AnchorMissing(f"{fn.name}: no assignment to {target}")
+    raise core.AnchorMissing(f"{fn.name} ({getattr(fn, '_rel', '?')}:{fn.lineno}): no assignment `{target} = ...`; " + ", ".join(_here(fn, c) for c in target.strip("()").split(",")))
 
 
 def _calls(fn, attr):
@@ -156,7 +348,7 @@ def _append_arg(fn, listname):
         if (isinstance(n, ast.Call) and isinstance(n.func, ast.Attribute) and n.func.attr == "append"
                 and isinstance(n.func.value, ast.Name) and n.func.value.id == listname):
             return n.args[0]
-    raise core.AnchorMissing(f"{fn.name}: no {listname}.append(...)")
+    raise core.AnchorMissing(f"{fn.name} ({getattr(fn, '_rel', '?')}:{fn.lineno}): no `{listname}.append(...)`; " + _here(fn, listname))
 
 
 def _euler_calls(fn):
@@ -228,6 +420,16 @@ def translate(src):
     eul_d = src.anchor("get_nn_distances:euler-calls", lambda: [f"{s}:{'deg' if d else 'rad'}" for s, d in _euler_calls(fd())])
     inv_r = src.anchor("get_nn_rotations:inverse-angles", lambda: E(_assign_value(fr(), "angles_ref_to_zero")))
     rel = src.anchor("get_nn_rotations:relative", lambda: E(_append_arg(fr(), "nn_rotations")) + ";" + E(_assign_value(fr(), "rot_to_zero")) + ";" + E(_assign_value(fr(), "rot_nn")))
+    def inv_cols(fth, var):
+        f = fth()
+        node = _assign_value(f, var)
+        lists = [x for x in ast.walk(node) if isinstance(x, ast.List)]
+        if not (isinstance(node, ast.UnaryOp) and isinstance(node.op, ast.USub) and len(lists) == 1):
+            raise core.AnchorMissing(f"{f.name} ({f._rel}:{node.lineno}): {_here(f, var)} is not `-<columns [c1, c2, c3] of the query subset>`: `{f._lines[node.lineno - 1].strip()}`")
+        return src.literal(lists[0])
+
+    invc_d = src.anchor("get_nn_distances:inverse-columns", lambda: inv_cols(fd, "angles"))
+    invc_r = src.anchor("get_nn_rotations:inverse-columns", lambda: inv_cols(fr, "angles_ref_to_zero"))
     eul_r = src.anchor("get_nn_rotations:euler-calls", lambda: [f"{s}:{'deg' if d else 'rad'}" for s, d in _euler_calls(fr())])
 
     def stats_cols():
@@ -309,6 +511,23 @@ def translate(src):
     body_s = src.anchor("get_nn_stats:body", lambda: _dump(fs()))
     body_a = src.anchor("geom.angular_distance:body", lambda: _dump(_fn(src, gm, "angular_distance")))
     body_c = src.anchor("geom.compare_rotations:body", lambda: _dump(_fn(src, gm, "compare_rotations")))
+    # the helpers the analysis goes through (work list 3): tomogram subsets, column access, complete positions, angles, z-axis image
+    body_v = src.anchor("geom.visualize_rotations:body", lambda: _dump(_fn(src, gm, "visualize_rotations")))
+    body_m = src.anchor("Motl.get_motl_subset:body", lambda: _dump(_fn(src, cm, "Motl.get_motl_subset")))
+    body_f = src.anchor("Motl.get_feature:body", lambda: _dump(_fn(src, cm, "Motl.get_feature")))
+    body_p = src.anchor("Motl.get_coordinates:body", lambda: _dump(_fn(src, cm, "Motl.get_coordinates")))
+    body_g = src.anchor("Motl.get_angles:body", lambda: _dump(_fn(src, cm, "Motl.get_angles")))
+    # executed on every call but without influence on the reported angle (rotation_type='angular_distance'): binding discipline only
+    src.anchor("geom.cone_inplane_distance:bound", lambda: src.find(gm, "cone_inplane_distance").name)
+    src.anchor("Motl.create_empty_motl_df:bound", lambda: src.find(cm, "Motl.create_empty_motl_df").name)
+    src.anchor("Motl.__init__:bound", lambda: src.find(cm, "Motl.__init__").name)
+    for an_, gn_, rel_, qn_ in (("get_feature_nn_indices:body", "bodyIndices", nn, "get_feature_nn_indices"), ("get_nn_distances:body", "bodyDistances", nn, "get_nn_distances"),
+                            ("get_nn_rotations:body", "bodyRotations", nn, "get_nn_rotations"), ("get_nn_stats:body", "bodyStats", nn, "get_nn_stats"),
+                            ("geom.angular_distance:body", "bodyAngular", gm, "angular_distance"), ("geom.compare_rotations:body", "bodyCompare", gm, "compare_rotations"),
+                            ("geom.visualize_rotations:body", "bodyVisualize", gm, "visualize_rotations"), ("Motl.get_motl_subset:body", "bodySubset", cm, "Motl.get_motl_subset"),
+                            ("Motl.get_feature:body", "bodyFeature", cm, "Motl.get_feature"), ("Motl.get_coordinates:body", "bodyCoordinates", cm, "Motl.get_coordinates"),
+                            ("Motl.get_angles:body", "bodyAngles", cm, "Motl.get_angles")):
+        _pointer(src, an_, gn_, lambda rel_=rel_, qn_=qn_: _fn(src, rel_, qn_))
 
     def L(v):
         return core.lean_str_list(v) if isinstance(v, list) and all(isinstance(x, str) for x in v) else core.lean_str_list([MISSING])
@@ -335,6 +554,8 @@ def treeExpr : String := {T(tree)}
 def queryExpr : String := {T(query)}
 def invAnglesDistances : String := {T(inv_d)}
 def invAnglesRotations : String := {T(inv_r)}
+def invColumnsDistances : List String := {L(invc_d)}
+def invColumnsRotations : List String := {L(invc_r)}
 def offsetExpr : String := {T(offs)}
 def distanceExpr : String := {T(dist)}
 def frameOffsetExpr : String := {T(frame)}
@@ -365,6 +586,11 @@ def bodyRotations : List String := {LL(body_r)}
 def bodyStats : List String := {LL(body_s)}
 def bodyAngular : List String := {LL(body_a)}
 def bodyCompare : List String := {LL(body_c)}
+def bodyVisualize : List String := {LL(body_v)}
+def bodySubset : List String := {LL(body_m)}
+def bodyFeature : List String := {LL(body_f)}
+def bodyCoordinates : List String := {LL(body_p)}
+def bodyAngles : List String := {LL(body_g)}
 end CryoCat.Gen.C18
 """
 
@@ -461,8 +687,10 @@ def _ties(a, nn, k):
 
 def _angle(rng, kind):
     u = rng.random()
-    if u < 0.70:
+    if u < 0.55:
         return rng.uniform(0, 180) if kind == "theta" else rng.uniform(-180, 180)
+    if u < 0.70:  # H3: decimal angles with 1..3 decimals, as written in a STAR / text file (off the dyadic grid)
+        return round(rng.uniform(0, 180) if kind == "theta" else rng.uniform(-180, 180), rng.choice([1, 2, 2, 3]))
     if u < 0.82:
         return rng.choice([0.0, 90.0, 180.0, -90.0, 45.0, 30.0, 120.0])
     if u < 0.88:
@@ -627,7 +855,22 @@ def _one(rng, tier):
                 r[1] = cnt[r[0]]
     else:
         nn, relation = _particles(rng, _tomoseq(rng, cn, order_n), layout, R, submode, 1 if submode == "per-tomogram" else 5000, pool), "independent"
-    px = rng.choice([1.0, 1.0, 0.5, 2.0, rng.randint(1, 128) / 8.0, rng.randint(1, 128) / 8.0])
+    px = rng.choice([1.0, 1.0, 0.5, 2.0, rng.randint(1, 128) / 8.0, rng.randint(1, 128) / 8.0,
+                     round(rng.uniform(0.5, 20.0), rng.choice([2, 3])), rng.choice([1.35, 2.176, 13.48, 0.834, 3.42])])  # H3: decimal pixel sizes (Angstrom / px)
+    # H3: column types and row labels a user naturally has. 'int-ids': identifier columns int64 (a STAR file with integer tokens),
+    # 'int64': EVERY column int64 (all-integer file: integer positions, shifts and angles); labels: what Motl(df) keeps after
+    # remove_feature (gaps), concatenation without reset (duplicates), sorting (not ascending)
+    dtype = rng.choice(["float64"] * 6 + ["int-ids"] * 2 + ["int64"] * 2)
+    if dtype == "int64":
+        for l in ((a,) if nn is a else (a, nn)):
+            for r in l:
+                c = [float(round(r[2 + i] + r[5 + i])) for i in range(3)]
+                sh = [float(round(x)) for x in r[5:8]]
+                r[2:11] = [c[0] - sh[0], c[1] - sh[1], c[2] - sh[2]] + sh + [float(round(x)) for x in r[8:11]]
+    labels = {"a": _labels(rng, len(a)), "nn": _labels(rng, len(nn))}
+    forms = [f for f, pr in (("k_numpy", 0.15), ("px_numpy", 0.1)) if rng.random() < pr]
+    if float(px) == int(px) and rng.random() < 0.4:
+        forms.append("px_int")
     qk = rng.random()
     if qk < 0.08:
         Q = [1.0, 0.0, 0.0, 0.0]
@@ -653,7 +896,24 @@ def _one(rng, tier):
     ta, tn = {int(r[0]) for r in a}, {int(r[0]) for r in nn}
     overlap = "disjoint" if not (ta & tn) else ("same" if ta == tn else "partial")
     return dict(a=a, nn=nn, k=k, px=px, Q=Q, t=t, layout=layout, relation=relation, overlap=overlap, family=family, submode=submode,
-                omit=omit, mode=mode, reuse=reuse, move_tomos=move_tomos)
+                omit=omit, mode=mode, reuse=reuse, move_tomos=move_tomos, dtype=dtype, labels=labels, forms=forms)
+
+
+def _labels(rng, n):
+    """row labels of the caller's DataFrame: None = 0..n-1"""
+    u = rng.random()
+    if u < 0.6:
+        return None
+    if u < 0.75:   # gaps, ascending (rows were removed)
+        return sorted(rng.sample(range(0, 3 * n + 5), n))
+    if u < 0.87:   # duplicates (two tables concatenated without reset)
+        h = max(1, n // 2)
+        return (list(range(h)) + list(range(n - h)))[:n] if n > 1 else [0]
+    if u < 0.95:   # not ascending (sorted by another column)
+        l = list(range(n))
+        rng.shuffle(l)
+        return l
+    return [7] * n  # one label for every row
 
 
 def _tomoconfig_clamp(rng, tier, k):
@@ -682,20 +942,37 @@ def shrink(case):
             return False
         if "nn_number" in c.get("omit", []) and c["k"] != 1:
             return False
+        if c.get("dtype") == "int64" and any(float(x) != round(x) for l in (c["a"], c["nn"]) for r in l for x in r[2:11]):
+            return False
+        for name in ("a", "nn"):
+            lab = (c.get("labels") or {}).get(name)
+            if lab is not None and len(lab) != len(c[name]):
+                return False
         return True
 
     cands = []
     for name in ("a", "nn"):
         l = case[name]
         if len(l) > 1:
-            for part in (l[:len(l) // 2], l[len(l) // 2:]):
-                c = dict(case, **{name: part}, relation="independent")
+            lab = (case.get("labels") or {}).get(name)
+            h = len(l) // 2
+            for part, lp in ((l[:h], lab[:h] if lab else None), (l[h:], lab[h:] if lab else None)):
+                c = dict(case, **{name: part}, relation="independent", labels=dict(case.get("labels") or {}, **{name: lp}))
                 cands.append(c)
             if len(l) <= 12:
                 for i in range(len(l)):
-                    cands.append(dict(case, **{name: l[:i] + l[i + 1:]}, relation="independent"))
+                    cands.append(dict(case, **{name: l[:i] + l[i + 1:]}, relation="independent",
+                                      labels=dict(case.get("labels") or {}, **{name: (lab[:i] + lab[i + 1:]) if lab else None})))
     if case.get("omit"):
         cands.append(dict(case, omit=[]))
+    if case.get("dtype", "float64") != "float64":
+        cands.append(dict(case, dtype="float64"))
+        if case["dtype"] == "int64":
+            cands.append(dict(case, dtype="int-ids"))
+    if any((case.get("labels") or {}).values()):
+        cands.append(dict(case, labels={"a": None, "nn": None}))
+    if case.get("forms"):
+        cands.append(dict(case, forms=[]))
     if case.get("mode", "fresh") != "fresh":
         cands.append(dict(case, mode="fresh", reuse=None))
     if case.get("move_tomos") is not None:
@@ -728,30 +1005,49 @@ def shrink(case):
 MOTL_FIELDS = ["tomo_id", "subtomo_id", "x", "y", "z", "shift_x", "shift_y", "shift_z", "phi", "theta", "psi"]
 
 
-def _motl(rows):
+INT_ID_COLUMNS = ["subtomo_id", "tomo_id", "object_id", "class", "geom1", "geom2"]
+
+
+def _motl(rows, dtype="float64", labels=None):
+    """the caller's particle list: a Motl around a DataFrame with the given column types and row labels (H3)"""
     import pandas as pd
     from cryocat import cryomotl
     df = pd.DataFrame(0.0, index=range(len(rows)), columns=COLS)
     arr = np.array(rows, dtype=float).reshape(len(rows), 11)
     for j, c in enumerate(MOTL_FIELDS):
         df[c] = arr[:, j]
-    df["score"] = np.linspace(0.1, 0.9, len(rows))
+    df["score"] = np.linspace(0.1, 0.9, len(rows)) if dtype != "int64" else (np.arange(len(rows)) % 3).astype(float)
     df["object_id"] = np.arange(len(rows))[::-1] % 7
     df["geom1"] = 1.0
+    if dtype == "int64" and all(float(x) == round(x) for x in arr[:, 2:].ravel()):
+        df = df.astype("int64")
+    elif dtype in ("int-ids", "int64"):  # a moved copy of an all-integer list has real coordinates: only the identifiers stay integer
+        if dtype == "int64":
+            df["score"] = np.linspace(0.1, 0.9, len(rows))
+        df = df.astype({c: "int64" for c in INT_ID_COLUMNS})
+    if labels is not None:
+        if len(labels) != len(rows):
+            raise HarnessError("case carries row labels for another number of rows")
+        df.index = list(labels)
     return cryomotl.Motl(motl_df=df)
 
 
 def _rewrite_in_place(m, rows):
-    """the caller edits ITS OWN particle list between two analyses: same Motl object, same DataFrame object, new numbers"""
+    """the caller edits ITS OWN particle list between two analyses: same Motl object, same DataFrame object, new numbers. Written
+    so that it works for every column type and every labelling (positional; an integer column that receives real numbers is
+    replaced as a whole, as `df[c] = values` does)"""
     arr = np.array(rows, dtype=float).reshape(len(rows), 11)
     for j, c in enumerate(MOTL_FIELDS):
         if j >= 2:
-            m.df.loc[:, c] = arr[:, j]
+            if m.df[c].dtype.kind == "f":
+                m.df.iloc[:, m.df.columns.get_loc(c)] = arr[:, j]
+            else:
+                m.df[c] = arr[:, j]
 
 
 def _snap(m):
     df = m.df
-    return dict(id=id(df), cols=[str(c) for c in df.columns], index=[int(i) for i in df.index], dtypes=[str(d) for d in df.dtypes],
+    return dict(id=id(df), cols=[str(c) for c in df.columns], index=[repr(i) for i in df.index], dtypes=[str(d) for d in df.dtypes],
                 values=df.to_numpy(dtype=float, copy=True))
 
 
@@ -803,7 +1099,9 @@ def _observe(t):
 
 def _call(ma, mn, case):
     from cryocat import nnana
-    kw = dict(pixel_size=case["px"], feature_id="tomo_id", nn_number=case["k"], rotation_type="angular_distance")
+    forms = case.get("forms") or []
+    px = int(case["px"]) if "px_int" in forms and float(case["px"]) == int(case["px"]) else (np.float64(case["px"]) if "px_numpy" in forms else case["px"])
+    kw = dict(pixel_size=px, feature_id="tomo_id", nn_number=np.int64(case["k"]) if "k_numpy" in forms else case["k"], rotation_type="angular_distance")
     for o in case.get("omit", []):
         kw.pop(o, None)
     ba, bn = _snap(ma), (None if mn is ma else _snap(mn))
@@ -825,8 +1123,10 @@ def run_impl(case):
     same_obj = case.get("relation") == "coincident" and a == nn
     a2, nn2 = _moved(case)
     out = {"moved_lists": {"a": a2, "nn": nn2}}
-    ma = _motl(a)
-    mn = ma if same_obj else _motl(nn)
+    dt = case.get("dtype", "float64")
+    la, ln = (case.get("labels") or {}).get("a"), (case.get("labels") or {}).get("nn")
+    ma = _motl(a, dt, la)
+    mn = ma if same_obj else _motl(nn, dt, ln)
     out["orig"] = _call(ma, mn, case)
     if case.get("mode", "fresh") == "inplace":
         reuse = case.get("reuse") or "both"
@@ -838,16 +1138,16 @@ def run_impl(case):
                 _rewrite_in_place(ma, a2)
                 mb = ma
             else:
-                mb = _motl(a2)
+                mb = _motl(a2, dt, la)
             if reuse in ("both", "nn"):
                 _rewrite_in_place(mn, nn2)
                 mc = mn
             else:
-                mc = _motl(nn2)
+                mc = _motl(nn2, dt, ln)
         out["moved"] = _call(mb, mc, case)
     else:
-        mb = _motl(a2)
-        mc = mb if same_obj else _motl(nn2)
+        mb = _motl(a2, dt, la)
+        mc = mb if same_obj else _motl(nn2, dt, ln)
         out["moved"] = _call(mb, mc, case)
     return out
 
@@ -867,10 +1167,12 @@ def _rows_of(tab):
     miss = [c for c in REQUIRED if c not in tab["cols"]]
     if miss:
         return None, f"columns missing: {miss}"
+    if not tab["nrows"]:
+        return [], None  # an empty table: whatever dtype pandas gave its (empty) columns
     bad = [c for c in REQUIRED if c not in tab["data"]]
     if bad:
         return None, f"not numeric: {bad}"
-    return [list(x) for x in zip(*[tab["data"][c] for c in REQUIRED])] if tab["nrows"] else [], None
+    return [list(x) for x in zip(*[tab["data"][c] for c in REQUIRED])], None
 
 
 def _subsets(rows):
@@ -1016,6 +1318,15 @@ def _ang_tol(theta_deg):
     return 1e-9 + math.degrees(min(lin, 2.0 * math.sqrt(2.0 * ANG_DOT_ERR)))
 
 
+ANG_CAP = math.degrees(2.0 * math.sqrt(2.0 * ANG_DOT_ERR))  # 1.02e-5 degrees: the largest error _ang_tol ever allows
+
+
+def _ang_tol_measured(theta_measured_deg):
+    """_ang_tol decreases with the angle, and a MEASURED angle may exceed the true one by up to ANG_CAP: evaluate the bound at the
+    smallest true angle compatible with the measurement (matters only below ~1e-5 degrees, next to the arccos singularity)"""
+    return _ang_tol(max(0.0, abs(theta_measured_deg) - ANG_CAP))
+
+
 def _euler_tol(rel):
     """tolerance for a rotation matrix rebuilt from REPORTED Euler angles: scipy's as_euler treats |sin theta| <= 1e-7 as gimbal lock, sets the
     third angle to 0 and returns angles of a rotation that is off by up to 2 sin(theta) (a representation limit of the Euler triple next to
@@ -1051,8 +1362,10 @@ def _judge_table(label, case, a, nn, tab, stats_resp, check_resp, dev):
         txt = f"{e['type']}: {e['msg']} @{e['where'] or e['last']}"
         if not e["in_cryocat"]:
             out.append(dict(kind="corr", clause="harness-or-library-raised", detail=pre + "exception without a frame inside cryocat/: " + txt))
-        elif not common and e["type"] == "ValueError" and "need at least one array" in e["msg"]:
-            out.append(dict(kind="spec", clause=K1_CLAUSE, detail=pre + "lists sharing no tomogram: expected an empty result, got " + txt))
+        elif not common:
+            # lists that share no tomogram are inside the quantifier ("possibly disjoint tomogram sets") and the documented behaviour
+            # ("work only with the intersection") is the empty table: ANY exception raised inside cryocat on this class is this clause
+            out.append(dict(kind="spec", clause=K1_CLAUSE, detail=pre + "lists sharing no tomogram: expected an empty table, got " + txt))
         else:
             out.append(dict(kind="spec", clause="raises", detail=pre + txt + (f" (common tomograms {common})" if common else " (no common tomogram)")))
         return out, None, None
@@ -1061,7 +1374,7 @@ def _judge_table(label, case, a, nn, tab, stats_resp, check_resp, dev):
         return out, None, None
     if tab["cols"] != STATS_COLUMNS + ["type"]:
         out.append(dict(kind="corr", clause="table-columns", detail=pre + f"columns {tab['cols']} differ from the documented 16 + 'type'"))
-    textual = [c for c in REQUIRED if c in tab["cols"] and c not in tab["data"]]
+    textual = [c for c in REQUIRED if c in tab["cols"] and c not in tab["data"]] if tab["nrows"] else []
     if textual:
         out.append(dict(kind="spec", clause="column-types", detail=pre + "numeric fields came back as text/object: " + ", ".join(f"{c} ({tab['dtypes'][c]}: {tab['text'].get(c)})" for c in textual)))
         return out, None, None
@@ -1208,8 +1521,11 @@ def _compare_(case, obs, resps):
                 tol = INV_TOL + 32 * 2.220446049250313e-16 * case["px"] * mscale / (1 + abs(r[0]))
                 dev["inv"] = max(dev["inv"], e) if e == e else float("nan")
                 dev["inv_over_tol"] = max(dev["inv_over_tol"], e / tol) if e == e else float("nan")
-                dev["inv_ang"] = max(dev["inv_ang"], max(0.0, ea - 2 * _ang_tol(r[7]))) if ea == ea else float("nan")
-                if not (e <= tol) or not (ea <= INV_TOL + 2 * _ang_tol(r[7])):
+                # both runs measure the SAME true angle, each with the arccos error of that angle (derivation: _ang_tol); the bound is taken at
+                # the smaller measurement pushed down by ANG_CAP, which is <= the true angle
+                atol = 2 * _ang_tol_measured(min(r[7], r2[7])) if r[7] == r[7] and r2[7] == r2[7] else 0.0
+                dev["inv_ang"] = max(dev["inv_ang"], max(0.0, ea - atol)) if ea == ea else float("nan")
+                if not (e <= tol) or not (ea <= INV_TOL + atol):
                     out.append(dict(kind="spec", clause="rigid-invariance",
                                     detail=f"query {r[14]}, neighbour {r[15]} (tomogram {p[0]}): distance/frame offset/relative orientation change by {e:.3g}, angular distance by {ea:.3g} under the rigid motion: before {r[:14]}, after {r2[:14]}")); break
     return out, dev
@@ -1220,11 +1536,9 @@ def judge(case, obs, resps):
 
 
 def classify(case, obs, finding):
-    """C18-K1 (open): two lists with disjoint tomogram sets raise ValueError('need at least one array to concatenate') instead of
-    giving an empty table. Exactly that class: no common tomogram AND that message."""
-    if finding.get("kind") == "spec" and finding.get("clause") == K1_CLAUSE:
-        if not ({int(r[0]) for r in case["a"]} & {int(r[0]) for r in case["nn"]}):
-            return "C18-K1"
+    """C18 has no open known finding: C18-K1 (lists sharing no tomogram raised ValueError instead of giving an empty table) is FIXED by
+    C18-fix-1 (empty-result path in get_nn_distances / get_nn_rotations); on a tree without that fix the clause
+    `disjoint-empty-result` is an ordinary spec finding with a replay."""
     return None
 
 
@@ -1279,6 +1593,11 @@ def stats(case, obs, resps):
          "omitted_keywords": case.get("omit") or ["none"],
          "mode": case.get("mode", "fresh") + (":" + case["reuse"] if case.get("reuse") else ""),
          "moved_tomograms": "all" if case.get("move_tomos") is None else "some",
+         "column_types": case.get("dtype", "float64"),
+         "row_labels": ["default" if l is None else ("duplicated" if len(set(l)) < len(l) else ("ascending-gaps" if l == sorted(l) else "not-ascending"))
+                        for l in ((case.get("labels") or {}).get("a"), (case.get("labels") or {}).get("nn"))],
+         "argument_forms": case.get("forms") or ["plain"],
+         "pixel_size_kind": "dyadic" if float(case["px"] * 1024).is_integer() else "decimal",
          "subtomo_ids": "repeat-across-tomograms" if len(set(subs_a)) < len(subs_a) else "unique-in-list",
          "first_appearance_a": _first_appearance(case["a"], common),
          "missing_tomogram_sorts_below_a_common_one": below,
@@ -1295,6 +1614,7 @@ def stats(case, obs, resps):
 def sample_view(case):
     return dict(n_a=len(case["a"]), n_nn=len(case["nn"]), k=case["k"], px=case["px"], Q=case["Q"], t=case["t"], relation=case.get("relation"),
                 layout=case.get("layout"), omit=case.get("omit"), mode=case.get("mode"), reuse=case.get("reuse"), move_tomos=case.get("move_tomos"),
+                dtype=case.get("dtype"), forms=case.get("forms"), labels={k_: (v if v is None else v[:6]) for k_, v in (case.get("labels") or {}).items()},
                 first_a=case["a"][0], first_nn=case["nn"][0])
 
 
@@ -1344,12 +1664,15 @@ LEVEL_TEXT = ("Lean 4 theorems about an executable model of nnana.get_nn_stats, 
               "from_euler('zxz', -[psi,theta,phi]) is exactly the inverse orientation (inverse_orientation); over the reals, with the real counterparts of the driver's "
               "services, the row's angular distance IS the rotation angle arccos((trace-1)/2) of the relative orientation R_q^T R_n and IS the quaternion form "
               "2 arccos min(|q1.q2|,1) that geom.angular_distance evaluates (angular_distance_is_rotation_angle, nnStats_angular_real, through C06); and for every "
-              "orthogonal Q and every translation the whole table is unchanged except that the tomogram-frame offset co-rotates (nnStats_rigid, pair_rigid). Tied to the "
-              "source by 39 regenerated anchors (expressions with local variables renamed by binding order, signature defaults, call keywords, whole function bodies) and by "
+              "orthogonal Q and every translation the whole table is unchanged except that the tomogram-frame offset co-rotates (nnStats_rigid, pair_rigid), for k neighbours, any k; "
+              "for ANY correct neighbour search (KnnSpec answers, pairwise distinct distances) the table is the model's table and the reported neighbour order is invariant "
+              "(nnStatsWith_eq, neighbour_order_rigid, nnStats_rigid_any_search); lists without a common tomogram give the empty table (k1_model_returns_empty); tomogram subsets and "
+              "column access are part of the model (motl_subset_is_filter, orientation_from_columns). Tied to the "
+              "source by 49 regenerated anchors + 15 binding obligations (expressions with local variables renamed by binding order, signature defaults, call keywords, whole function bodies) and by "
               "a differential run of the real get_nn_stats against the model, the verified checker on the real output of BOTH calls, two real runs on rigidly moved copies "
               "or on the same objects moved in place, and before/after comparison of the caller's lists")
 LEVEL_NOTE = ("partial: KD-tree = brute force, scipy Euler conversions, binary64 square root / arccos are outside the proofs "
               "(services or assumptions, probed and compared numerically each run); theorems are exact-arithmetic facts, the implementation runs in binary64 "
-              "(exact on the generated 1/64 grid for all neighbour decisions); open known finding C18-K1 (disjoint tomogram sets raise ValueError)")
+              "(exact on the generated 1/64 grid for all neighbour decisions); C18-K1 (disjoint tomogram sets raised ValueError) is fixed by C18-fix-1 and has no rule left")
 TECHNIQUE = "Lean 4 proof (sorting/permutation lemmas, 3x3 matrix algebra over any commutative ring, relational lifting over lists, real analysis through C06 for the angle) + regenerated structural anchors + differential correspondence + verified checker on the implementation's output + cross-call state stream"
 DESIGN_REF = "DESIGN.md section 4, C18"
